@@ -283,4 +283,7 @@ def run(ctx):
     if ctx.prop == "C10" and not getattr(ctx, "_sharing", False):
         from .common import share
         share(ctx, "C05", ("R05.4",), "R10.4", "filter obligations shared with C05", 5)
+        # "called exactly once at the point where it is streamed, for an emitted record": the statement object lives until the end of
+        # the statement / of the variable it initialises - the rvalue << chain hands the object on by value
+        share(ctx, "C05", ("R05.1",), "R10.3", "ownership obligations shared with C05", 8)
     ctx.assume("optimiser-level cost of a disabled statement is not decided")
